@@ -18,6 +18,7 @@ import (
 
 	"github.com/yandex/pandora/cli"
 	"github.com/yandex/pandora/core/config"
+	"github.com/yandex/pandora/core/plugin"
 	"gopkg.in/yaml.v2"
 )
 
@@ -113,11 +114,26 @@ func force(v reflect.Value, errs *[]string) {
 	}
 }
 
-func runDecode(root string, cfg any) string {
+func runDecode(root string, cfg any) (obs string) {
+	defer func() {
+		if r := recover(); r != nil {
+			// a panic while a configuration is read is never an acceptable outcome
+			obs = "PANIC " + drv.Trunc(drv.Clean(strings.ReplaceAll(fmt.Sprint(r), " ", "_")), 120)
+		}
+	}()
 	_, target := rootTarget(root)
 	err := config.DecodeAndValidate(cfg, target.Interface())
 	if err != nil {
 		return "err=" + classes(err.Error())
+	}
+	if strings.HasPrefix(root, "alt|") {
+		// the registered constructor on the accepted config (what pluginconfig.Hook does next); only a panic matters here
+		parts := strings.SplitN(root, "|", 3)
+		for _, iface := range regOrder {
+			if iface.String() == parts[1] {
+				_, _ = plugin.New(iface, parts[2], func(c interface{}) error { return config.DecodeAndValidate(cfg, c) })
+			}
+		}
 	}
 	var late []string
 	force(target.Elem(), &late)
@@ -155,10 +171,13 @@ func run(input string) string {
 		return "BADINPUT " + err.Error()
 	}
 	root := dec(kv["root"])
+	// the schema the model runs on: dumped from the real types of THIS tree, pruned to what cfg can reach
+	t, d := rootTarget(root)
+	sch := " sch=" + schemaOf(t, d.Elem(), []any{cfg})
 	if kv["kind"] == "cli" {
-		return runCli(cfg)
+		return runCli(cfg) + sch
 	}
-	return runDecode(root, cfg)
+	return runDecode(root, cfg) + sch
 }
 
 // ---- the CLI config reader (cli.readConfig), in a child process because it ends the process on a bad config
